@@ -174,6 +174,11 @@ func Modify(node Node, f func(Node) (Node, bool)) (Node, bool) { //nolint:funlen
 		return f(newNode)
 	case *CallExpression:
 		newNode := *node
+		// The callee is an expression too: `unquote(f)(1)`, `m(x)(2)`, `(q => q + unquote(x))(2)`, `fs[i](1)`.
+		newNode.Function, cont = Modify(node.Function, f)
+		if !cont {
+			return nil, false
+		}
 		newNode.Arguments = make([]Node, len(node.Arguments))
 		for i := range node.Arguments {
 			newNode.Arguments[i], cont = Modify(node.Arguments[i], f)
